@@ -128,4 +128,8 @@ VARIANTS = [
          old="            if len(ix_nodes) >= len(self.nodes):", new="            if self.appearances[ix] >= len(self.nodes):", expect=("C09-PRESIMP", "batch")),
     dict(name="twin: batch-index detection through the edge table", kind="twin", file=BASIC,
          old="            if len(ix_nodes) >= len(self.nodes):", new="            if len(self.edges[ix]) == len(self.nodes):"),
+    dict(name="seed C09_9: size-1 indices are stripped from the network before the optimal search", kind="break", file=BASIC,
+         old="    cp = ContractionProcessor(inputs, output, size_dict)\n    if simplify:\n        cp.simplify()\n\n    cp.optimize_optimal(", new="    inputs = [[ix for ix in term if size_dict[ix] != 1] for term in inputs]\n    output = [ix for ix in output if size_dict[ix] != 1]\n    cp = ContractionProcessor(inputs, output, size_dict)\n    if simplify:\n        cp.simplify()\n\n    cp.optimize_optimal(", expect=("C09-OPTIONS", "inputs")),
+    dict(name="twin: the network's containers are converted to tuples first", kind="twin", file=BASIC,
+         old="    cp = ContractionProcessor(inputs, output, size_dict)\n    if simplify:\n        cp.simplify()\n\n    cp.optimize_optimal(", new="    inputs = tuple(map(tuple, inputs))\n    output = tuple(output)\n    cp = ContractionProcessor(inputs, output, size_dict)\n    if simplify:\n        cp.simplify()\n\n    cp.optimize_optimal("),
 ]
